@@ -29,6 +29,8 @@ type srtRoles struct {
 	frameT   *types.Named // runtime.CallFrame
 	ipF      *types.Var
 	coreT    *types.Named
+	typeN    *types.Named // analyzer/ast.Type
+	typeI    *types.Interface
 }
 
 func srtResolve(c *Ctx) *srtRoles {
@@ -254,6 +256,15 @@ func (r *srtRoles) classifySpanExpr(info *types.Info, enc srtEnclosing, e ast.Ex
 		if id, ok := ast.Unparen(x.Fun).(*ast.Ident); ok && len(x.Args) == 0 {
 			return r.classifySpanExpr(info, enc, id, depth+1)
 		}
+		// the span of an analyzer TYPE value (`field.Type.Span()`): where that type was
+		// written — for a named type its definition — not the instruction that failed
+		if fn := CalleeOf(info, x); fn != nil && len(x.Args) == 0 {
+			if sig := fn.Type().(*types.Signature); sig.Recv() != nil && sig.Results().Len() == 1 && types.Identical(sig.Results().At(0).Type(), r.spanT) {
+				if sel, ok := ast.Unparen(x.Fun).(*ast.SelectorExpr); ok && r.isTypeValue(info.Types[sel.X].Type) {
+					return Violated, fmt.Sprintf("%s() of the TYPE value %s (%s): the position where that type was written (for a named or imported type its definition / the import item), not the span of the instruction that fails — the interrupt points away from the construct that caused it", fn.Name(), exprStr(sel.X), spTypeName(info.Types[sel.X].Type))
+				}
+			}
+		}
 		// the span carried by another interrupt / cast error, read through its
 		// accessor (`(*i).GetSpan()`) instead of the field
 		if fn := CalleeOf(info, x); fn != nil && len(x.Args) == 0 && fn.Pkg() != nil && strings.HasSuffix(fn.Pkg().Path(), "/runtime/value") {
@@ -284,6 +295,9 @@ func (r *srtRoles) classifySpanExpr(info *types.Info, enc srtEnclosing, e ast.Ex
 		return st, "closure returning " + det
 	case *ast.SelectorExpr:
 		if f := spFieldOf(info, x); f != nil && types.Identical(f.Type(), r.spanT) {
+			if r.isTypeValue(info.Types[x.X].Type) {
+				return Violated, fmt.Sprintf("span field %s of the TYPE value %s: the position where that type was written, not the span of the instruction that fails", f.Name(), exprStr(x.X))
+			}
 			// the span carried by another interrupt / cast error
 			if f.Pkg() != nil && strings.HasSuffix(f.Pkg().Path(), "/runtime/value") {
 				return Discharged, "span carried by " + exprStr(x.X) + " (" + spTypeName(info.Types[x.X].Type) + ")"
@@ -356,11 +370,26 @@ func (r *srtRoles) classifySpanExpr(info *types.Info, enc srtEnclosing, e ast.Ex
 }
 
 func srtCtorSpans(r *srtRoles) []Obligation {
+	var obs []Obligation
+	typeCtor := 0
+	// the VM itself and its value package (casts, index, member access raise the interrupts there)
+	for _, rel := range []string{"homescript/runtime", "homescript/runtime/value"} {
+		if !r.c.HasPkg(rel) {
+			continue
+		}
+		obs = append(obs, srtCtorSpansIn(r, rel, &typeCtor)...)
+	}
+	obs = append(obs, Obligation{Key: "runtime|type-constructor spans", Status: Info, Detail: fmt.Sprintf("%d errors.Span arguments go to analyzer/ast type constructors (span of a type, not of a failure): not checked", typeCtor)})
+	return obs
+}
+
+func srtCtorSpansIn(r *srtRoles, rel string, typeCtorOut *int) []Obligation {
 	c := r.c
-	rp := c.Pkg("homescript/runtime")
+	rp := c.Pkg(rel)
 	info := rp.TypesInfo
 	var obs []Obligation
 	typeCtor := 0
+	prefix := strings.TrimPrefix(rel, "homescript/")
 	for _, fd := range AllFuncDecls(rp) {
 		count := map[string]int{}
 		var lits []*ast.FuncLit
@@ -372,6 +401,36 @@ func srtCtorSpans(r *srtRoles) []Obligation {
 					visit(fl.Body)
 					lits = lits[:len(lits)-1]
 					return false
+				}
+				if cl, ok := m.(*ast.CompositeLit); ok && rel != "homescript/runtime" {
+					// an interrupt / cast error written as a literal: its span field is handed the span the same way
+					if lt := info.Types[cl].Type; lt != nil {
+						if n := recvNamed(lt); n != nil && n.Obj().Pkg() == rp.Types {
+							for _, el := range cl.Elts {
+								kv, ok := el.(*ast.KeyValueExpr)
+								if !ok {
+									continue
+								}
+								k, ok := kv.Key.(*ast.Ident)
+								if !ok {
+									continue
+								}
+								f, _ := info.Uses[k].(*types.Var)
+								if f == nil || !r.isSpanish(f.Type()) {
+									continue
+								}
+								base := fmt.Sprintf("%s.%s|%s literal|span", prefix, FuncName(fd), n.Obj().Name())
+								count[base]++
+								key := base
+								if count[base] > 1 {
+									key = fmt.Sprintf("%s#%d", base, count[base])
+								}
+								st, det := r.classifySpanExpr(info, srtEnclosing{decl: fd, lits: append([]*ast.FuncLit(nil), lits...)}, kv.Value, 0)
+								obs = append(obs, Obligation{Key: key, Pos: c.Pos(kv.Value.Pos()), Status: st, Detail: det, Nontrivial: true})
+							}
+						}
+					}
+					return true
 				}
 				call, ok := m.(*ast.CallExpr)
 				if !ok {
@@ -408,7 +467,7 @@ func srtCtorSpans(r *srtRoles) []Obligation {
 							continue
 						}
 					}
-					base := fmt.Sprintf("runtime.%s|%s|span", FuncName(fd), name)
+					base := fmt.Sprintf("%s.%s|%s|span", prefix, FuncName(fd), name)
 					count[base]++
 					key := base
 					if count[base] > 1 {
@@ -427,7 +486,7 @@ func srtCtorSpans(r *srtRoles) []Obligation {
 		}
 		visit(fd.Body)
 	}
-	obs = append(obs, Obligation{Key: "runtime|type-constructor spans", Status: Info, Detail: fmt.Sprintf("%d errors.Span arguments go to analyzer/ast type constructors (span of a type, not of a failure): not checked", typeCtor)})
+	*typeCtorOut += typeCtor
 	return obs
 }
 
@@ -1359,4 +1418,36 @@ func srtCopyLoops(r *srtRoles) []Obligation {
 		obs = append(obs, Obligation{Key: "compiler|copy loops", Status: Undecided, Detail: "no loop copying Function.Instructions found: relocateLabels moved or changed shape"})
 	}
 	return obs
+}
+
+// isTypeValue: t is the analyzer's Type interface or one of its implementations.
+func (r *srtRoles) isTypeValue(t types.Type) bool {
+	if t == nil {
+		return false
+	}
+	if r.typeN == nil {
+		if !r.c.HasPkg("homescript/analyzer/ast") {
+			return false
+		}
+		if o := r.c.Pkg("homescript/analyzer/ast").Types.Scope().Lookup("Type"); o != nil {
+			r.typeN, _ = o.Type().(*types.Named)
+		}
+		if r.typeN != nil {
+			r.typeI, _ = r.typeN.Underlying().(*types.Interface)
+		}
+		if r.typeI == nil {
+			fatalf("anchor unresolved: analyzer/ast.Type")
+		}
+	}
+	if p, ok := t.(*types.Pointer); ok {
+		t = p.Elem()
+	}
+	if types.Identical(t, r.typeN) {
+		return true
+	}
+	n, ok := t.(*types.Named)
+	if !ok || n.Obj().Pkg() == nil || n.Obj().Pkg() != r.typeN.Obj().Pkg() {
+		return false
+	}
+	return types.Implements(n, r.typeI) || types.Implements(types.NewPointer(n), r.typeI)
 }
